@@ -51,17 +51,41 @@ RECURSIVE AdlerB(_, _)
 AdlerB(s, a) == IF s = <<>> THEN 0
                 ELSE LET a2 == (a + s[1]) % 65521 IN (a2 + AdlerB(Tail(s), a2)) % 65521
 Adler32(s) == LET a == (1 + ByteSum(s)) % 65521  b == AdlerB(s, 1) IN U16(b) \o U16(a)
+\* Valid zlib headers (RFC 1950): CM = 8, CINFO <= 7, no preset dictionary, (CMF * 256 + FLG) % 31 = 0.
+\* 78 01 / 78 5E / 78 9C / 78 DA are what encoders write for levels 0-1 / 2-5 / 6 / 7-9; 08 1D declares the smallest
+\* window (256 bytes), legal for a stream of stored blocks (no back references).
+ZlibHeaders == {<<120, 1>>, <<120, 94>>, <<120, 156>>, <<120, 218>>, <<8, 29>>}
+ValidZlibHeader(a, b) == a % 16 = 8 /\ a \div 16 <= 7 /\ (b \div 32) % 2 = 0 /\ (a * 256 + b) % 31 = 0
+
+StoredBlock(s, final) ==
+  <<IF final THEN 1 ELSE 0>> \o <<Len(s) % 256, Len(s) \div 256>> \o <<255 - (Len(s) % 256), 255 - (Len(s) \div 256)>> \o s
+\* a stream of stored blocks: the data cut at the positions in `cuts` (ascending, within 0 .. Len(s)), every piece one block
+RECURSIVE Blocks(_, _)
+Blocks(s, cuts) ==
+  IF cuts = <<>> THEN StoredBlock(s, TRUE)
+  ELSE StoredBlock(SubSeq(s, 1, cuts[1]), FALSE)
+       \o Blocks(SubSeq(s, cuts[1] + 1, Len(s)), [k \in 1 .. Len(cuts) - 1 |-> cuts[k + 1] - cuts[1]])
+ZlibBlocks(s, hdr, cuts) == hdr \o Blocks(s, cuts) \o Adler32(s)
 \* one final stored block; level byte pair 0x78 0x01
-ZlibStored(s) ==
-  <<120, 1, 1>> \o <<Len(s) % 256, Len(s) \div 256>> \o <<255 - (Len(s) % 256), 255 - (Len(s) \div 256)>>
-  \o s \o Adler32(s)
-\* the data of a stream produced by ZlibStored, or "Unknown"
+ZlibStored(s) == ZlibBlocks(s, <<120, 1>>, <<>>)
+
+\* the data of a stream of stored blocks (any number of them, any valid header), or "Unmodelled" for other block types
+RECURSIVE InflateBlocks(_, _)
+\* z = the stream from the current block header on; returns [ok, data, rest] (rest = what follows the final block)
+InflateBlocks(z, fuel) ==
+  IF Len(z) < 5 \/ fuel = 0 THEN [ok |-> FALSE, why |-> "CompressionError", data |-> <<>>, rest |-> <<>>]
+  ELSE IF z[1] \notin {0, 1} THEN [ok |-> FALSE, why |-> "Unmodelled", data |-> <<>>, rest |-> <<>>]
+  ELSE LET n == z[2] + 256 * z[3] IN
+       IF z[4] # 255 - z[2] \/ z[5] # 255 - z[3] \/ Len(z) < 5 + n
+       THEN [ok |-> FALSE, why |-> "CompressionError", data |-> <<>>, rest |-> <<>>]
+       ELSE IF z[1] = 1 THEN [ok |-> TRUE, why |-> "", data |-> SubSeq(z, 6, 5 + n), rest |-> SubSeq(z, 6 + n, Len(z))]
+       ELSE LET r == InflateBlocks(SubSeq(z, 6 + n, Len(z)), fuel - 1) IN
+            IF r.ok THEN [r EXCEPT !.data = SubSeq(z, 6, 5 + n) \o r.data] ELSE r
 Inflate(z) ==
-  IF Len(z) >= 11 /\ z[1] = 120 /\ z[2] = 1 /\ z[3] = 1
-  THEN LET n == z[4] + 256 * z[5] IN
-       IF z[6] = 255 - z[4] /\ z[7] = 255 - z[5] /\ Len(z) = 11 + n
-          /\ SubSeq(z, 8 + n, 11 + n) = Adler32(SubSeq(z, 8, 7 + n))
-       THEN Ok(SubSeq(z, 8, 7 + n)) ELSE Err("CompressionError")
+  IF Len(z) >= 2 /\ ValidZlibHeader(z[1], z[2])
+  THEN LET r == InflateBlocks(SubSeq(z, 3, Len(z)), Len(z)) IN
+       IF ~r.ok THEN Err(r.why)
+       ELSE IF r.rest = Adler32(r.data) THEN Ok(r.data) ELSE Err("CompressionError")
   ELSE Err("Unmodelled")
 
 ---------------------------------------------------------------------------
@@ -165,19 +189,32 @@ LayBodies(bodies, order, gaps, p) ==
 
 AtOf(at, tid) == LET k == CHOOSE k \in 1 .. Len(at) : at[k][1] = tid IN at[k][2]
 
-RECURSIVE DirBytes(_, _, _)
-DirBytes(dir, at, bodies) ==
+\* `real` = FALSE: searchRange / entrySelector / rangeShift and the checksums are zero (no reader of the property consults
+\* them); TRUE: the values a font tool writes (largest power of two <= numTables etc., a non-zero checksum filler).
+RECURSIVE SfLog2Floor(_)
+SfLog2Floor(n) == IF n <= 1 THEN 0 ELSE 1 + SfLog2Floor(n \div 2)
+SfPow2(k) == IF k = 0 THEN 1 ELSE IF k = 1 THEN 2 ELSE IF k = 2 THEN 4 ELSE 8
+SearchFields(n, real) ==
+  IF ~real \/ n = 0 THEN U16(0) \o U16(0) \o U16(0)
+  ELSE LET e == SfLog2Floor(n) IN U16(16 * SfPow2(e)) \o U16(e) \o U16(16 * n - 16 * SfPow2(e))
+ChecksumFiller(real, tid) == IF real THEN <<222, 173, 190, 16 + tid>> ELSE U32(0)
+
+RECURSIVE DirBytesR(_, _, _, _)
+DirBytesR(dir, at, bodies, real) ==
   IF dir = <<>> THEN <<>>
-  ELSE dir[1].tag \o U32(0) \o U32(AtOf(at, dir[1].tid)) \o U32(Len(bodies[dir[1].tid]))
-       \o DirBytes(Tail(dir), at, bodies)
+  ELSE dir[1].tag \o ChecksumFiller(real, dir[1].tid) \o U32(AtOf(at, dir[1].tid)) \o U32(Len(bodies[dir[1].tid]))
+       \o DirBytesR(Tail(dir), at, bodies, real)
+DirBytes(dir, at, bodies) == DirBytesR(dir, at, bodies, FALSE)
 
-OffsetTableBytes(m, at, bodies) ==
-  m.flavor \o U16(Len(m.dir)) \o U16(0) \o U16(0) \o U16(0) \o DirBytes(m.dir, at, bodies)
+OffsetTableBytesR(m, at, bodies, real) ==
+  m.flavor \o U16(Len(m.dir)) \o SearchFields(Len(m.dir), real) \o DirBytesR(m.dir, at, bodies, real)
+OffsetTableBytes(m, at, bodies) == OffsetTableBytesR(m, at, bodies, FALSE)
 
-WriteSfnt(tables, m, order, gaps) ==
+WriteSfntR(tables, m, order, gaps, real) ==
   LET hdr == 12 + 16 * Len(m.dir)
       lay == LayBodies(tables, order, gaps, hdr)
-  IN OffsetTableBytes(m, lay.at, tables) \o lay.bytes
+  IN OffsetTableBytesR(m, lay.at, tables, real) \o lay.bytes
+WriteSfnt(tables, m, order, gaps) == WriteSfntR(tables, m, order, gaps, FALSE)
 
 RECURSIVE MemberStarts(_, _)
 MemberStarts(members, p) ==
@@ -188,6 +225,55 @@ ConcatAll(ss) == IF ss = <<>> THEN <<>> ELSE ss[1] \o ConcatAll(Tail(ss))
 RECURSIVE U32s(_)
 U32s(ns) == IF ns = <<>> THEN <<>> ELSE U32(ns[1]) \o U32s(Tail(ns))
 
+\* ---- collections, general layout ---------------------------------------------------------------
+\* OpenType fixes only the header at offset 0 and that every offset is relative to the start of the FILE.  Where the
+\* members' offset tables and the table bodies lie is free: a `plan` lists the items that follow the header in file
+\* order, <<"d", m>> = the offset table of member m, <<"b", tid>> = the body of table tid (after gaps[tid] zero bytes).
+\* Members that do not occur in the plan as "d" share the offset table of dirOf[m] (two collection entries with one
+\* offset).  hdr: "v1" | "v2null" (version 2.0, the three DSIG fields null = unsigned) | "v2dsig" (a DSIG block is
+\* appended to the file and named by the header).
+TtcHeaderLen(n, hdr) == 12 + 4 * n + (IF hdr = "v1" THEN 0 ELSE 12)
+PlanItemLen(it, tables, members, gaps) ==
+  IF it[1] = "d" THEN 12 + 16 * Len(members[it[2]].dir) ELSE gaps[it[2]] + Len(tables[it[2]])
+RECURSIVE PlanAt(_, _, _, _, _)
+\* [d : seq of <<m, start>>, b : seq of <<tid, start of the body>>, end]
+PlanAt(plan, p, tables, members, gaps) ==
+  IF plan = <<>> THEN [d |-> <<>>, b |-> <<>>, end |-> p]
+  ELSE LET it   == plan[1]
+           rest == PlanAt(Tail(plan), p + PlanItemLen(it, tables, members, gaps), tables, members, gaps)
+       IN IF it[1] = "d" THEN [rest EXCEPT !.d = <<<<it[2], p>>>> \o rest.d]
+          ELSE [rest EXCEPT !.b = <<<<it[2], p + gaps[it[2]]>>>> \o rest.b]
+RECURSIVE PlanBytes(_, _, _, _, _, _)
+PlanBytes(plan, at, tables, members, gaps, real) ==
+  IF plan = <<>> THEN <<>>
+  ELSE LET it == plan[1] IN
+       (IF it[1] = "d" THEN OffsetTableBytesR(members[it[2]], at, tables, real)
+        ELSE Zeros(gaps[it[2]]) \o tables[it[2]])
+       \o PlanBytes(Tail(plan), at, tables, members, gaps, real)
+
+DsigBlock == <<0, 0, 0, 1, 0, 0, 0, 0>>             \* version 1, no signatures
+TagDSIG   == <<68, 83, 73, 71>>
+
+\* start of the offset table of every member index (0-based index i at position i + 1)
+TtcStarts(tables, members, plan, dirOf, gaps, hdr) ==
+  LET pa == PlanAt(plan, TtcHeaderLen(Len(members), hdr), tables, members, gaps)
+  IN [m \in 1 .. Len(members) |-> AtOf(pa.d, dirOf[m])]
+
+WriteTtcPlan(tables, members, plan, dirOf, gaps, hdr, real) ==
+  LET n      == Len(members)
+      pa     == PlanAt(plan, TtcHeaderLen(n, hdr), tables, members, gaps)
+      starts == [m \in 1 .. n |-> AtOf(pa.d, dirOf[m])]
+      body   == PlanBytes(plan, pa.b, tables, members, gaps, real)
+      pad    == Zeros(Pad4(pa.end))
+  IN MagicTTC \o U16(IF hdr = "v1" THEN 1 ELSE 2) \o U16(0) \o U32(n) \o U32s(starts)
+     \o (CASE hdr = "v1"     -> <<>>
+           [] hdr = "v2null" -> U32(0) \o U32(0) \o U32(0)
+           [] hdr = "v2dsig" -> TagDSIG \o U32(Len(DsigBlock)) \o U32(pa.end + Len(pad)))
+     \o body
+     \o (IF hdr = "v2dsig" THEN pad \o DsigBlock ELSE <<>>)
+
+\* the conventional layout: header, all offset tables in member order, bodies.  (major = 2 without the DSIG fields
+\* is what round 1 generated: a version 2.0 header cut short, which allsorts reads like version 1.0.)
 WriteTtc(tables, members, order, gaps, major) ==
   LET starts == MemberStarts(members, 12 + 4 * Len(members))
       dirEnd == IF members = <<>> THEN 12
@@ -205,13 +291,39 @@ WoffDir(dir, at, stored, tables) ==
 
 \* zipped: set of table ids stored as zlib streams.  A zlib-wrapped table whose stream is as
 \* long as the table itself would be taken for uncompressed: such layouts are not WOFF.
-WriteWoff(tables, m, order, gaps, zipped) ==
-  LET stored == [t \in 1 .. Len(tables) |-> IF t \in zipped THEN ZlibStored(tables[t]) ELSE tables[t]]
+\* zform = [hdr |-> one of ZlibHeaders, split |-> BOOLEAN]: the streams' header bytes, and whether a table of two or
+\* more bytes is cut into two stored blocks (after its first byte).
+\* ext: "none" | "meta" (an extended-metadata block, itself a zlib stream, follows the table data on a 4-byte boundary)
+\*      | "metapriv" (metadata and a private block).  `real`: totalSfntSize and a font version are filled in.
+ZForm0 == [hdr |-> <<120, 1>>, split |-> FALSE]
+MetaXml == <<60, 109, 47, 62>>                      \* "<m/>"
+PrivData == <<80, 82, 73, 86, 33>>
+RECURSIVE SumPadded(_, _)
+SumPadded(dir, tables) ==
+  IF dir = <<>> THEN 0
+  ELSE LET n == Len(tables[dir[1].tid]) IN n + Pad4(n) + SumPadded(Tail(dir), tables)
+
+WriteWoffX(tables, m, order, gaps, zipped, zform, ext, real) ==
+  LET Z(t)   == ZlibBlocks(t, zform.hdr, IF zform.split /\ Len(t) >= 2 THEN <<1>> ELSE <<>>)
+      stored == [t \in 1 .. Len(tables) |-> IF t \in zipped THEN Z(tables[t]) ELSE tables[t]]
       hdr    == 44 + 20 * Len(m.dir)
       lay    == LayBodies(stored, order, gaps, hdr)
-  IN MagicWOFF \o m.flavor \o U32(hdr + Len(lay.bytes)) \o U16(Len(m.dir)) \o U16(0)
-     \o U32(0) \o U16(1) \o U16(0) \o U32(0) \o U32(0) \o U32(0) \o U32(0) \o U32(0)
-     \o WoffDir(m.dir, lay.at, stored, tables) \o lay.bytes
+      end0   == hdr + Len(lay.bytes)
+      meta   == ZlibStored(MetaXml)
+      pad1   == IF ext = "none" THEN <<>> ELSE Zeros(Pad4(end0))
+      metaAt == end0 + Len(pad1)
+      pad2   == IF ext = "metapriv" THEN Zeros(Pad4(metaAt + Len(meta))) ELSE <<>>
+      privAt == metaAt + Len(meta) + Len(pad2)
+      tail   == CASE ext = "none"     -> <<>>
+                  [] ext = "meta"     -> pad1 \o meta
+                  [] ext = "metapriv" -> pad1 \o meta \o pad2 \o PrivData
+  IN MagicWOFF \o m.flavor \o U32(end0 + Len(tail)) \o U16(Len(m.dir)) \o U16(0)
+     \o (IF real THEN U32(12 + 16 * Len(m.dir) + SumPadded(m.dir, tables)) \o U16(2) \o U16(7) ELSE U32(0) \o U16(1) \o U16(0))
+     \o (IF ext = "none" THEN U32(0) \o U32(0) \o U32(0) ELSE U32(metaAt) \o U32(Len(meta)) \o U32(Len(MetaXml)))
+     \o (IF ext = "metapriv" THEN U32(privAt) \o U32(Len(PrivData)) ELSE U32(0) \o U32(0))
+     \o WoffDir(m.dir, lay.at, stored, tables) \o lay.bytes \o tail
+
+WriteWoff(tables, m, order, gaps, zipped) == WriteWoffX(tables, m, order, gaps, zipped, ZForm0, "none", FALSE)
 
 ---------------------------------------------------------------------------
 \* What the property demands of a container written from (tables, members):
